@@ -317,19 +317,12 @@ namespace avel {
         }
 
         AVEL_FINL Vector& operator/=(Vector rhs) {
+            content /= decay(rhs);
             return *this;
-            /*
-            auto results = div(*this, rhs);
-            content = results.quot.content;
-            return *this;
-            */
         }
 
         AVEL_FINL Vector& operator%=(Vector rhs) {
-            /*
-            auto results = div(*this, rhs);
-            content = results.rem.content;
-            */
+            content = avel::fmod(content, decay(rhs));
             return *this;
         }
 
